@@ -3,6 +3,7 @@ import Driver.C20
 import Driver.V2
 import Driver.V2Match
 import Driver.Lex
+import Driver.Path
 /-
 lcdriver: reads one record per line on stdin, `<stage>\t<id>\t<fields…>`,
 runs the model's executable definitions, prints `<id>\t<result>`.
@@ -19,6 +20,8 @@ def handle (st : St) (line : String) : St × String :=
     let e : LC.Sets.Enum Nat := if en = "rev" then LC.Sets.Enum.rev else LC.Sets.Enum.id
     (st, id ++ "\t" ++ C20.runSets e 4 (if ops.isEmpty then [] else ops.splitOn ","))
   | "tok" :: id :: n :: hx :: _ => (st, id ++ "\t" ++ V2.runTok (n == "1") (unhex hx))
+  | "norm" :: id :: hx :: _ => (st, id ++ "\t" ++ V2.runNorm (unhex hx))
+  | "norm" :: id :: _ => (st, id ++ "\t" ++ V2.runNorm [])
   | "v2corpus" :: id :: thr :: q :: words :: docs :: _ =>
     let c := V2Match.parseCorpus thr q words docs
     ({ st with corpora := (id, c) :: st.corpora },
@@ -31,6 +34,12 @@ def handle (st : St) (line : String) : St × String :=
   | "spec:lexspec" :: id :: lang :: hx :: _ => (st, id ++ "\t" ++ Lex.runLexSpec lang.toNat! (unhex hx))
   | "spec:lexspec" :: id :: lang :: _ => (st, id ++ "\t" ++ Lex.runLexSpec lang.toNat! [])
   | "lex" :: id :: lang :: _ => (st, id ++ "\t" ++ Lex.runLex lang.toNat! [])
+  | "v1tok" :: id :: hx :: _ => (st, id ++ "\t" ++ V1.runV1Tok (unhex hx))
+  | "v1tok" :: id :: _ => (st, id ++ "\t" ++ V1.runV1Tok [])
+  | "clean" :: id :: hx :: _ => (st, id ++ "\t" ++ Path.runClean hx)
+  | "clean" :: id :: _ => (st, id ++ "\t" ++ Path.runClean "")
+  | "rel" :: id :: a :: b :: _ => (st, id ++ "\t" ++ Path.runRel a b)
+  | "loadkey" :: id :: d :: ns :: _ => (st, id ++ "\t" ++ Path.runLoadKey d ns)
   | "chunk" :: id :: spec :: _ => (st, id ++ "\t" ++ Lex.runChunk spec)
   | "chunk" :: id :: _ => (st, id ++ "\t" ++ Lex.runChunk "")
   | _ :: id :: _ => (st, id ++ "\tBADSTAGE")
